@@ -754,10 +754,59 @@ class Engine:
             _Z3_CACHE.clear()
 
     # ------------------------------------------------------------------ solver plumbing
+    def _new_solver(self, mixed: bool = False):
+        """Real atoms only (the default): z3's complete non-linear real procedure (nlsat).  The general incremental solver was
+        seen to run > 300 s on a two-equation cubic query, ignoring both its timeout and an interrupt; it is used only where
+        integers are involved (int_atoms cases, floor atoms)."""
+        self._mixed = bool(mixed or self.int_atoms)
+        s = z3.Solver() if self._mixed else z3.SolverFor("QF_NRA")
+        s.set("timeout", self.query_timeout_ms)
+        return s
+
+    def _go_mixed(self):
+        """Switch the current path's solver to the general one (an integer-valued atom is about to be introduced)."""
+        if getattr(self, "_mixed", True):
+            return
+        old = self.solver
+        self.solver = self._new_solver(mixed=True)
+        for a in old.assertions():
+            self.solver.add(a)
+
+    def _watchdog_start(self):
+        """z3's own ``timeout`` is not honoured inside some non-linear arithmetic loops (a 10 s query was seen to run 300 s):
+        a daemon thread interrupts the context when a query overruns its deadline; the query then answers ``unknown``."""
+        import threading
+
+        if getattr(self, "_wd", None) is not None:
+            return
+        self._wd_deadline = None
+
+        def loop():
+            while True:
+                time.sleep(0.5)
+                d = self._wd_deadline
+                if d is not None and time.time() > d:
+                    self._wd_deadline = None
+                    try:
+                        z3.main_ctx().interrupt()
+                        self.stats["interrupted"] = self.stats.get("interrupted", 0) + 1
+                    except Exception:
+                        pass
+
+        self._wd = threading.Thread(target=loop, daemon=True)
+        self._wd.start()
+
     def _check(self, *assumptions, kind="feasibility_queries"):
         t0 = time.time()
         self.stats[kind] += 1
-        r = self.solver.check(*assumptions)
+        self._watchdog_start()
+        self._wd_deadline = t0 + self.query_timeout_ms / 1000.0 + 2.0
+        try:
+            r = self.solver.check(*assumptions)
+        except z3.Z3Exception:
+            r = z3.unknown  # interrupted
+        finally:
+            self._wd_deadline = None
         self.stats["solver_s"] += time.time() - t0
         s = str(r)
         self.stats[s] = self.stats.get(s, 0) + 1
@@ -904,6 +953,7 @@ class Engine:
         k = Sym.atom("floor!%d" % n)
         kz = z3_atom("floor!%d" % n)
         xz = x.z3()
+        self._go_mixed()
         self.assume(z3.And(z3.ToReal(kz) <= xz, xz < z3.ToReal(kz) + 1) if not self.int_atoms or x.den != _CP_ONE else z3.And(kz <= xz, xz < kz + 1))
         self.path_cache[key] = k
         return k
@@ -948,6 +998,37 @@ class Engine:
         """A model of PC (and ``extra``) preferring small integers for replay."""
         cons = [] if extra is None else [extra]
         vs = [z3_atom(a) for a in atoms]
+        if not getattr(self, "_mixed", True):
+            # real arithmetic only (nlsat): box the atoms, then pin them one by one to an integer next to the model's value
+            import math
+
+            for b in (bound, 1024):
+                box = []
+                for v in vs:
+                    box += [v >= -b, v <= b]
+                if self._check(*(cons + box), kind="validity_queries") != "sat":
+                    continue
+                m = self.solver.model()
+                fixed: List[Any] = []
+                for a, v in zip(atoms, vs):
+                    try:
+                        val = model_value(m, a)
+                    except Exception:
+                        continue
+                    if val.denominator == 1:
+                        fixed.append(v == int(val))
+                        continue
+                    for cand in (math.floor(val), math.ceil(val)):
+                        if self._check(*(cons + box + fixed + [v == cand]), kind="validity_queries") == "sat":
+                            fixed.append(v == cand)
+                            m = self.solver.model()
+                            break
+                if self._check(*(cons + box + fixed), kind="validity_queries") == "sat":
+                    return self.solver.model()
+                return m
+            if self._check(*cons, kind="validity_queries") == "sat":
+                return self.solver.model()
+            return None
         for b in (bound, 64, 1024):
             small = []
             for v in vs:
@@ -990,8 +1071,7 @@ class Engine:
             self.decided = {}
             self._keep = []
             self.deadline = t_end
-            self.solver = z3.Solver()
-            self.solver.set("timeout", self.query_timeout_ms)
+            self.solver = self._new_solver()
             self.active = True
             res = PathResult()
             try:
